@@ -478,7 +478,7 @@ func genPlatforms(c *gal.Ctx) {
 						tb, tk, ti = ii.bpmsvn, ii.kmsvn, ii.kmid
 					}
 					p := platform{Shape: "pair", MSR: goodMSR | uint64(r.Intn(4))<<33, EnumErr: ee}
-					p.Devs = fillWords(r, all, unreadable, n%2, n/2%2, tb, tk, ti)
+					p.Devs = fillWords(r, all, unreadable, (n+1)%2, n/2%2, tb, tk, ti)
 					runPlatform(c, p, 1+n/4%2, tb, tk, ti, ii)
 					n++
 				}
@@ -546,6 +546,17 @@ func runPlatform(c *gal.Ctx, p platform, v int, tb, tk, ti uint8, ii imageInfo) 
 			d["note"] = fmt.Sprintf("GetHFSTS6 delivered the status word %#x of %s, not the one of the ME device %s", h6.Word, p.whose(6, h6.Word, 0xffffffff), p.Devs[me].bdf())
 		}
 	}
+	where := ""
+	if avail {
+		var names []string
+		for _, x := range p.Devs {
+			names = append(names, x.bdf())
+		}
+		where = fmt.Sprintf(" on the platform %v, ME device %s with HFSTS6 %#x, MSR 13Ah %#x: ", names, p.Devs[me].bdf(), w, p.MSR)
+		if n, ok := d["note"]; ok {
+			where += fmt.Sprintf("(%v) ", n)
+		}
+	}
 	noStatus := func(name string, got verd, zeroAgrees bool) {
 		switch {
 		case got.Panic:
@@ -573,7 +584,7 @@ func runPlatform(c *gal.Ctx, p platform, v int, tb, tk, ti uint8, ii imageInfo) 
 		}
 		g := q.got
 		g.E1 = g.E1 || g.E2 // pkg/test: the verdict's own error travels as second error
-		judgeSane(c, idx, q.strict, q.v, w, p.MSR, g, d)
+		judgeSaneAt(c, idx, q.name+where, q.strict, q.v, w, p.MSR, g, d)
 	}
 	for _, q := range []struct {
 		name    string
@@ -592,7 +603,7 @@ func runPlatform(c *gal.Ctx, p platform, v int, tb, tk, ti uint8, ii imageInfo) 
 		case q.got.isPass() == (len(dq) == 0) && (q.got.isPass() || !q.got.OK && (q.got.E1 || q.got.E2)):
 			c.OracleOK()
 		default:
-			c.OracleFail(idx, fmt.Sprintf("%s: for the HFSTS6 %#x of the ME device %s the disqualifying conditions are %v, got %+v", q.name, w, p.Devs[me].bdf(), dq, q.got), siteBG+":ValidateMEAgainstManifests", d)
+			c.OracleFail(idx, fmt.Sprintf("%s%sthe disqualifying conditions are %v, got %+v", q.name, where, dq, q.got), siteBG+":ValidateMEAgainstManifests", d)
 		}
 	}
 	// GetHFSTS1 / GetHFSTS6: the status of the ME device, or an error
